@@ -170,7 +170,9 @@ TypeOf(x, C, P) ==
          THEN LET m == P.macs[x.mi] ts == TypesOf(x.args, C, P)
                   Gm == [n \in {m.ps[i] : i \in 1..Len(m.ps)} |->
                            [t |-> ts[CHOOSE i \in 1..Len(m.ps) : m.ps[i] = n], asg |-> FALSE]]
-              IN IF \A i \in 1..Len(ts) : Ok(ts[i]) THEN TypeOf(m.body, Ctx(Gm, ERR, FALSE, ERR), P) ELSE ERR
+              \* expansion is textual: an argument the body does not mention disappears, so only the
+              \* arguments that are used are typed (an ill-typed argument makes every use of its parameter ill typed)
+              IN TypeOf(m.body, Ctx(Gm, ERR, FALSE, ERR), P)
          ELSE ERR
     [] e = "throw" -> IF \E i \in 1..Len(P.exns) : P.exns[i] = x.exn THEN ANY ELSE ERR
     [] e = "try" ->
